@@ -80,3 +80,12 @@ package routing
 //@   site call ComputeFee: domain arg(1) <= 1<<40 && arg(0).FeeProportionalMillionths <= 1000000 && arg(0).FeeBaseMSat < 1<<32
 //@   site call CalcFee: domain arg(1) <= 1<<40 && -1000000 <= arg(0).Rate && arg(0).Rate <= 1000000 && amt <= 1<<40 && toNodeDist.outboundFee <= 1<<40 &&
 //@        toNodeDist.netAmountReceived >= toNodeDist.outboundFee
+//@
+//@ func (b *BlindedPayment) toRouteHints
+//@   props C19
+//@   requires b != nil && b.BlindedPath != nil
+//@   loop * havoc
+//@   site call NewBlindedEdge nth 0 as aggregate-policy: assert arg(0).MinHTLC == b.HtlcMinimum && arg(0).MaxHTLC == b.HtlcMaximum &&
+//@        arg(0).FeeBaseMSat == b.BaseFee && arg(0).FeeProportionalMillionths == b.ProportionalFeeRate &&
+//@        arg(0).TimeLockDelta == b.CltvExpiryDelta && arg(1) == b
+//@   site call NewBlindedEdge nth 0 as aggregate-max-enforced: assert b.HtlcMaximum != 0 ==> arg(0).HasMaxHTLC
